@@ -42,7 +42,7 @@ def plan(tier, seed):
                 N = int(rng.integers(3 * K, 10 * K + 8)); ccls = cls
             real = kind in models.REAL
             dtype = ('f32' if real else 'c64') if rng.uniform() < 0.15 else ('f64' if real else 'c128')
-            init = pick(['onehot', 'onehot', 'onehot:bool', 'onehot:int', 'dirichlet:1', 'dirichlet:0.1', 'blur:0.3'])
+            init = pick(['onehot', 'onehot', 'onehot:bool', 'onehot:int', 'dirichlet:1', 'dirichlet:0.1', 'blur:0.3', 'indep'])
             if N < K:
                 init = 'dirichlet:1'
             if cls == 'zeroclass':
